@@ -122,9 +122,23 @@ func analysers() (call.CallGraph, rcall.RCallGraph) {
 	return sharedCall, sharedRCall
 }
 
+// the model of a history: with shared analysers the requests of a history are also handed the SAME model value (a
+// program that loads deps.json once and asks several questions); a request must not alter the model it is handed
+var sharedModel []core_domain.CodeDataStruct
+
+func modelOf(in Input) []core_domain.CodeDataStruct {
+	if !shareAnalysers {
+		return buildModel(in)
+	}
+	if sharedModel == nil {
+		sharedModel = buildModel(in)
+	}
+	return sharedModel
+}
+
 func runOp(in Input, op Op) Obs {
 	o := emptyObs()
-	clzs := buildModel(in)
+	clzs := modelOf(in)
 	p, msg := lib.Guard(func() {
 		switch op.Kind {
 		case "call":
